@@ -29,7 +29,10 @@ def run(cfg: dict) -> dict:
     world = World(Ctx(), horizon=20000)
     version, role = cfg["version"], cfg["role"]
     npeer, nlib = cfg["peer_bytes"], cfg["lib_bytes"]
-    relay = tlsrig.make_peer_and_relay(version, role, script=[("write", tlsrig.pattern("peer", 0, npeer))])
+    go = {"on": not cfg.get("late_peer")}
+    # late_peer: the peer's bulk write only starts once every library task has been started and has run for a few loop turns (the reader
+    # is already parked in recv(), the writers already encrypted their data / queued on the send lock when the first peer byte arrives)
+    relay = tlsrig.make_peer_and_relay(version, role, script=[("wait_until", lambda: go["on"]), ("write", tlsrig.pattern("peer", 0, npeer))])
     world.env = relay.env
     out: dict[str, Any] = {}
 
@@ -66,6 +69,9 @@ def run(cfg: dict) -> dict:
             tasks[name] = loop.create_task({"w": writer, "r": reader, "x": writer2}[name]())
             for _ in range(cfg["gap"]):
                 await asyncio.sleep(0)
+        for _ in range(4):
+            await asyncio.sleep(0)
+        go["on"] = True
         done, pending = await asyncio.wait(list(tasks.values()), timeout=300.0)
         out["pending"] = sorted(k for k, t in tasks.items() if t in pending)
         for t in pending:
@@ -167,12 +173,13 @@ def run_job(job: dict) -> JobResult:
         for gap in (0, 1, 3):
             for recv in ("recv", "recv_into"):
                 for peer_bytes, lib_bytes in ((40000, 40000), (17, 40000), (40000, 17), (100000, 100000)):
-                    cfg = {"version": job["version"], "role": job["role"], "order": order, "gap": gap, "recv": recv, "peer_bytes": peer_bytes, "lib_bytes": lib_bytes}
+                  for late in (False, True):
+                    cfg = {"version": job["version"], "role": job["role"], "order": order, "gap": gap, "recv": recv, "peer_bytes": peer_bytes, "lib_bytes": lib_bytes, "late_peer": late}
                     obs = run(cfg)
                     res.evaluations += 1
                     bad = oracle(obs)
                     res.outcome("duplex-ok" if bad is None else "VIOLATION:" + bad)
-                    res.nontrivial.add(digest(("duplex", order, gap, recv, peer_bytes, lib_bytes, bad)))
+                    res.nontrivial.add(digest(("duplex", order, gap, recv, peer_bytes, lib_bytes, late, bad)))
                     key = f"async/duplex/{'two-writers/' if 'x' in order else ''}{bad}"
                     if bad and not any(v.key == key for v in res.violations):
                         res.violations.append(Violation(key, f"{cfg}: {obs}", {"kind": "duplex", "cfg": cfg, "choices": []}))
